@@ -10,7 +10,8 @@
   (`return Config.ROLL_PASS_AUTO_ROTATION` / the `detect_already_rotated` walk: guard conjuncts, value on a missing
   `prev`, the ordered `isinstance` tests with their return values, value when the walk is exhausted) -> `Rot.RotFn`, `Rot.WalkSpec`;
 * `pyroll/core/roll_pass/base.py`: `rotator_factory` (truthiness guard, `rotation=… if … is not True else None`,
-  `parent=roll_pass`) and its registration as pre-processor -> `Rot.FactorySpec`;
+  `parent=roll_pass`) and its registration as pre-processor -> `Rot.FactorySpec`; whether it starts with
+  `roll_pass.__cache__.pop("rotation", None)` (cached value of an earlier solve discarded) -> `Rot.CacheSpec`;
 * `pyroll/core/rotator/rotator.py` (`next_roll_pass`), `pyroll/core/unit/unit.py` (`init_solve` hand-over),
   `pyroll/core/config.py` (default of the switch) -> `Rot.FlowSpec`, `autoDefault`.
 
@@ -413,6 +414,17 @@ def extract_factory(tree):
     rp = fn.args.args[0].arg
     body = _strip_doc(fn.body)
     cond_truthy = False
+    # optional first statement `<rp>.__cache__.pop("rotation", None)`: the value cached by an earlier solve is discarded
+    drops_cache = False
+    if body and isinstance(body[0], ast.Expr) and isinstance(body[0].value, ast.Call):
+        c = body[0].value
+        if _path(c.func) == f"{rp}.__cache__.pop" and len(c.args) == 2 and not c.keywords \
+                and isinstance(c.args[0], ast.Constant) and c.args[0].value == "rotation" \
+                and isinstance(c.args[1], ast.Constant) and c.args[1].value is None:
+            drops_cache = True
+            body = body[1:]
+        else:
+            raise Gap(f"rotator_factory: statement outside the subset: {_src(body[0])}")
     if len(body) == 1 and isinstance(body[0], ast.If) and not body[0].orelse:
         if _path(body[0].test) != f"{rp}.rotation":
             raise Gap(f"rotator_factory: guard is not the truth value of {rp}.rotation: {_src(body[0].test)}")
@@ -446,7 +458,7 @@ def extract_factory(tree):
                     and _path(c.args[0]) == "rotator_factory":
                 registered = True
     return {"condTruthy": cond_truthy, "angle": angle, "parentIsPass": parent_is_pass, "registered": registered,
-            "lineno": fn.lineno}
+            "dropsCache": drops_cache, "lineno": fn.lineno}
 
 
 def _class(tree, name):
@@ -604,6 +616,10 @@ def lean_text(d):
     L.append(f"/-- pyroll/core/roll_pass/base.py:{f['lineno']} `rotator_factory` -/")
     L.append(f"def factory : FactorySpec :=\n  {{ condTruthy := {_b(f['condTruthy'])}, angle := .{f['angle']}, "
              f"parentIsPass := {_b(f['parentIsPass'])}, registered := {_b(f['registered'])} }}")
+    L.append("")
+    L.append("/-- `rotator_factory`: is the `rotation` value cached by an earlier solve discarded before it is read "
+             "(`roll_pass.__cache__.pop(\"rotation\", None)`)? -/")
+    L.append(f"def cache : CacheSpec := {{ factoryDropsCache := {_b(f['dropsCache'])} }}")
     L.append("")
     m = d["marks"]
     L.append(f"/-- pyroll/core/rotator/hookimpls.py:{m['lineno']} `Rotator.OutProfile.classifiers` -/")
